@@ -60,6 +60,7 @@ type Enc struct {
 	assumed     map[string]bool // callee contracts / axioms used
 	effectFree  map[string]bool
 	havocCalls  map[string]bool
+	topFr       *frame
 }
 
 func (x *Enc) note(s string) { x.notes[s] = true }
@@ -140,6 +141,7 @@ func (x *Enc) encodeTop() {
 	x.regKey(keyEpoch, "Int")
 	h0 := Heap{base: "0", m: map[string]Term{}}
 	fr := x.newFrame(fn, "f", 0, x.con)
+	x.topFr = fr
 	// parameters
 	var facts []Term
 	for _, p := range fn.Params {
@@ -180,6 +182,13 @@ func (x *Enc) encodeTop() {
 			ci := x.eng.clauses[c]
 			env := x.newSpecEnv(ci, fr.paramVals(ci.params, nil), h0, h0)
 			x.sc.assertC(x.evalBool(env, clauseExpr(ci)), "given (ghost hypothesis) "+c.Text)
+		}
+	}
+	if x.con != nil {
+		for _, cs := range x.con.Counts {
+			k := "$cnt:" + cs[0]
+			x.regKey(k, "Int")
+			x.sc.assertC(eq(x.hget(h0, k), "0"), "ghost call counter "+cs[0]+" starts at 0")
 		}
 	}
 	fr.entry = h0
@@ -269,11 +278,50 @@ func (x *Enc) modifiesOf(c *Contract, params map[string]Val, h Heap) (map[string
 		}
 		return keys, locs, false // default: modifies nothing (checked)
 	}
-	for i, m := range c.Modifies {
+	return x.locsOf(c, c.Modifies, "mod", params, h)
+}
+
+// sharedOf: locations other goroutines may write (havoced at blocking points).
+func (x *Enc) sharedOf(c *Contract, params map[string]Val, h Heap) (map[string]bool, map[string][]Term) {
+	if c == nil || len(c.Shared) == 0 {
+		return nil, nil
+	}
+	k, l, _ := x.locsOf(c, c.Shared, "shared", params, h)
+	return k, l
+}
+
+// interfere havocs the shared locations of the top contract (called at blocking operations).
+func (fr *frame) interfere(h Heap) Heap {
+	x := fr.x
+	if x.con == nil || len(x.con.Shared) == 0 || x.topFr == nil {
+		return h
+	}
+	keys, locs := x.sharedOf(x.con, x.topFr.paramVals(x.con.SynParams, nil), x.topFr.entry)
+	for _, k := range sortedKeys(keys) {
+		h = h.set(k, x.freshConst("Hshared!"+cleanKey(k), x.keys[k]))
+	}
+	for _, k := range sortedKeys(locs) {
+		if keys[k] {
+			continue
+		}
+		cur := x.hget(h, k)
+		for _, loc := range locs[k] {
+			fresh := x.freshConst("Hshared!"+cleanKey(k), strings.TrimSuffix(strings.TrimPrefix(x.keys[k], "(Array Int "), ")"))
+			cur = app("store", cur, loc, fresh)
+		}
+		h = x.hset(h, k, cur)
+	}
+	return x.bumpEpoch(h)
+}
+
+func (x *Enc) locsOf(c *Contract, list []string, tag string, params map[string]Val, h Heap) (map[string]bool, map[string][]Term, bool) {
+	keys := map[string]bool{}
+	locs := map[string][]Term{}
+	for i, m := range list {
 		if m == "everything" {
 			return keys, locs, true
 		}
-		ci := x.eng.synDecls[fmt.Sprintf("%s#mod%d", c.CalleeKey, i)]
+		ci := x.eng.synDecls[fmt.Sprintf("%s#%s%d", c.CalleeKey, tag, i)]
 		if ci == nil || ci.decl == nil || ci.decl.Body == nil {
 			x.note("modifies clause not resolved: " + m)
 			return keys, locs, true
